@@ -338,12 +338,12 @@ type c02Cell struct {
 	rng   *rand.Rand
 	inst  map[string]*c02Inst // by role
 	sec   *c02Secrets
-	flags []string
 
 	tokMu   sync.Mutex
 	lastTok c02Tokens
 
-	seenCookies map[string]bool
+	seenMu      sync.Mutex
+	seenCookies map[string]bool // every cookie value received from the proxy (name=value), for the opacity scan
 }
 
 func (c *c02Cell) flagsFor(store, secret, name string) []string {
@@ -439,16 +439,17 @@ func (c *c02Cell) login(label string, who vfIdentity, at time.Time) *c02Cred {
 	return cr
 }
 
-// collectCookies runs the key-less recovery over every cookie value the browser ever received.
+// collectCookies remembers every cookie value the browser ever received (the opacity scan runs over them at the end).
 func (c *c02Cell) collectCookies(b *vfBrowser) {
 	b.Jar.mu.Lock()
 	arch := append([]*vfCookie{}, b.Jar.Archive...)
 	b.Jar.mu.Unlock()
+	c.seenMu.Lock()
+	defer c.seenMu.Unlock()
 	for _, ck := range arch {
-		if ck.Value == "" || c.seenCookies[ck.Name+"="+ck.Value] {
-			continue
+		if ck.Value != "" {
+			c.seenCookies[ck.Name+"="+ck.Value] = true
 		}
-		c.seenCookies[ck.Name+"="+ck.Value] = true
 	}
 }
 
@@ -527,6 +528,11 @@ func (c *c02Cell) presentCSRF(in *c02Inst, base *c02Cred, cks []c02CK) (c02Outco
 		return out, req
 	}
 	out.Accepted = true
+	c.seenMu.Lock()
+	for _, ck := range sess {
+		c.seenCookies[ck.Name+"="+ck.Value] = true
+	}
+	c.seenMu.Unlock()
 	if p := c02Probe(c.w, in, sess, false); p.Accepted {
 		out.Id = p.Id
 	}
@@ -565,7 +571,7 @@ func (j *c02Job) allowed() []c02Ident {
 	return out
 }
 
-func (c *c02Cell) runJobs(size string, jobs []c02Job) {
+func (c *c02Cell) runJobs(jobs []c02Job) {
 	run := c.run
 	var restored int64
 	sampleFull := int64(run.Env.Pick(16, 4))
@@ -844,7 +850,7 @@ func (c *c02Cell) work() {
 				jobs[i].V.Class != "truncate-part" && jobs[i].V.Class != "truncate-joined" && jobs[i].V.Class != "forged-signature"
 		}
 		tJobs := time.Now()
-		c.runJobs(size.Name, jobs)
+		c.runJobs(jobs)
 		if testing.Verbose() {
 			fmt.Printf("NOTE c02 %s/%s/%s: %d jobs in %v (cookie %d chars, %d parts)\n", g.Store, g.Form.Name, size.Name, len(jobs), time.Since(tJobs).Round(time.Millisecond), len(A1.Full), len(A1.Parts))
 		}
